@@ -58,12 +58,15 @@ TEnd(e) ==
 (* free-running stress, judged at its quiescent end: every consumer returned *)
 (* (close releases all of them), and the items handed out plus the residue   *)
 (* of the closed queue are exactly the accepted ones, once each              *)
+StressOK(e) ==
+  LET all == e.got \o e.residue
+      S   == {all[i] : i \in 1..Len(all)}
+  IN /\ e.stuck = 0
+     /\ Cardinality(S) = Len(all)                                   \* nothing handed out twice
+     /\ S = {e.accepted[i] : i \in 1..Len(e.accepted)}              \* nothing lost, nothing invented
 TStress(e) ==
   /\ phase = "ready"
-  /\ e.stuck = 0
-  /\ LET all == e.got \o e.residue IN
-       /\ \A i, j \in 1..Len(all) : i # j => all[i] # all[j]
-       /\ {all[i] : i \in 1..Len(all)} = {e.accepted[i] : i \in 1..Len(e.accepted)}
+  /\ IF StressOK(e) THEN TRUE ELSE FALSE      \* (IF: evaluated as a plain state predicate)
   /\ l' = l + 1 /\ UNCHANGED <<allwvars, phase, rets>>
 
 TraceNext ==
